@@ -543,3 +543,39 @@ walker_total!(c07_walker_rr_8, 8, 201);
 walker_total!(c07_walker_psfb_12, 12, 206);
 walker_total!(c07_walker_rtpfb_16, 16, 205);
 walker_total!(c07_walker_sr_28, 28, 200);
+
+// ---------------------------------------------------------------- RtpHeader::parse (over &[u8], a cheap Buf)
+/// parse(write_to(h)) recovers every field, with a 4-byte extension block (any profile)
+#[kani::proof]
+#[kani::unwind(8)]
+fn c15_header_parse_of_write_ext4() {
+    let e: [u8; 4] = kani::any();
+    let h = any_header(0, Some(RtpHeaderExtension { profile: kani::any(), data: static_bytes_of(e) }));
+    let mut o = [0u8; 20];
+    h.write_to(false, &mut o[..]);
+    let mut cur: &[u8] = &o[..];
+    let (p, pb) = RtpHeader::parse(&mut cur).unwrap();
+    assert!(!pb && cur.is_empty());
+    assert!(p.marker == h.marker && p.payload_type == h.payload_type && p.sequence_number == h.sequence_number
+        && p.timestamp == h.timestamp && p.ssrc == h.ssrc && p.csrcs.is_empty());
+    let pe = p.extension.as_ref().unwrap();
+    assert!(pe.profile == h.extension.as_ref().unwrap().profile && pe.data[..] == e[..]);
+    core::mem::forget(p); core::mem::forget(h);
+}
+/// C07: RtpHeader::parse is total on every byte string of the stated length (CSRC count, X bit,
+/// extension length all symbolic)
+macro_rules! hdr_total {
+    ($name:ident, $n:expr, $u:expr) => {
+        #[kani::proof]
+        #[kani::unwind($u)]
+        fn $name() {
+            let raw: [u8; $n] = kani::any();
+            let mut cur: &[u8] = &raw[..];
+            let r = RtpHeader::parse(&mut cur);
+            core::mem::forget(r);
+        }
+    };
+}
+hdr_total!(c07_rtp_header_parse_0, 0, 4);
+hdr_total!(c07_rtp_header_parse_11, 11, 4);
+hdr_total!(c07_rtp_header_parse_12, 12, 6);
